@@ -24,6 +24,12 @@ _SELF_COMMUTING_GATES = frozenset(
 )
 
 
+# Gates of ``_SELF_COMMUTING_GATES`` whose targets are interchangeable.
+_EXCHANGE_SYMMETRIC_GATES = frozenset(
+    ["SWAP", "ISWAP", "SQRTSWAP", "SQRTISWAP", "SWAPALPHA", "BERKELEY"]
+)
+
+
 class InstructionsGraph:
     """
     A directed acyclic graph (DAG) representation
@@ -597,10 +603,18 @@ class Scheduler:
             return commute
         if instruction1.name not in _SELF_COMMUTING_GATES:
             return False
-        if len(instruction1.targets) > 2 or len(instruction2.targets) > 2:
-            # A gate given by more than two targets (e.g. TOFFOLI([c1, c2, t]))
-            # encodes the role of each qubit in the order of the list,
-            # which Instruction has sorted: equal sorted lists say nothing.
+        if (
+            len(instruction1.targets) > 1
+            and instruction1.name not in _EXCHANGE_SYMMETRIC_GATES
+        ) or (
+            len(instruction2.targets) > 1
+            and instruction2.name not in _EXCHANGE_SYMMETRIC_GATES
+        ):
+            # A gate given by several targets (e.g. TOFFOLI([c1, c2, t]) or
+            # TOFFOLI(controls=[c1], targets=[c2, t])) encodes the role
+            # of each qubit in the order of the list, which Instruction
+            # has sorted: equal sorted lists say nothing unless the
+            # targets of the gate are interchangeable.
             return False
         if (instruction1.controls) and (
             instruction1.controls == instruction2.controls
